@@ -150,12 +150,16 @@ type fnCtx struct {
 	inlineFailed bool
 	specErrors   []string
 	lemmaName    string
+	framedBases  map[string]bool
+	allowed      map[string][]string
+	curLoop      *loopInfo
 
 	// per activation
-	returns  []retSite
-	loops    map[*ssa.BasicBlock]*loopInfo
-	phiEdges map[*ssa.BasicBlock][]inEdge
-	cellPos  map[string]token.Pos
+	returns   []retSite
+	loops     map[*ssa.BasicBlock]*loopInfo
+	phiEdges  map[*ssa.BasicBlock][]inEdge
+	cellPos   map[string]token.Pos
+	cellAlloc map[string]*ssa.Alloc
 }
 
 type retSite struct {
@@ -203,7 +207,52 @@ func (fc *fnCtx) heapGet(st *State, name, sort string) string {
 	}
 	n := fc.defs.Declare("H."+name+"."+st.heapBase, sort)
 	t.heapInit[key] = n
+	if t.framedBases[st.heapBase] && t.entry != nil {
+		// heap at a loop header: the function's own frame holds there (proved at loop entry and back edges)
+		fc.defs.Axiom(n, fc.frameFact(name, sort, n))
+	}
 	return n
+}
+
+// frameFact: every location of heap `name` allocated at function entry and not
+// listed in the function's modifies clause has its entry value in `cur`.
+func (fc *fnCtx) frameFact(name, sort, cur string) string {
+	t := fc.top
+	entryBase := &State{heapBase: t.entry.heapBase, heap: t.entry.heap}
+	ini := fc.heapGet(entryBase, name, sort)
+	var excl []string
+	for _, r := range t.frameAllowed()[name] {
+		excl = append(excl, not(eq("r", r)))
+	}
+	cond := and(append([]string{"(< 0 r)", "(< r " + t.entry.alloc + ")"}, excl...)...)
+	if df, ok := fc.defs.byName[cur]; ok && df.Body == "" {
+		return fmt.Sprintf("(forall ((r Int)) (! (=> %s (= (select %s r) (select %s r))) :pattern ((select %s r))))", cond, cur, ini, cur)
+	}
+	return fmt.Sprintf("(forall ((r Int)) (=> %s (= (select %s r) (select %s r))))", cond, cur, ini)
+}
+
+func (fc *fnCtx) frameAllowed() map[string][]string {
+	t := fc.top
+	if t.allowed != nil {
+		return t.allowed
+	}
+	t.allowed = map[string][]string{}
+	c := t.contract
+	if c == nil || t.entry == nil {
+		return t.allowed
+	}
+	env := &SpecEnv{fc: t, st: t.entry, vars: t.params, bound: map[string]Val{}, pkg: t.fn.Package()}
+	for _, m := range c.Modifies {
+		locs, err := t.modLocs(env, m)
+		if err != nil {
+			t.specError(Clause{Text: "modifies " + m, File: c.File, Line: c.Line}, err)
+			continue
+		}
+		for _, l := range locs {
+			t.allowed[l.heap] = append(t.allowed[l.heap], l.ref)
+		}
+	}
+	return t.allowed
 }
 
 func (fc *fnCtx) heapSet(st *State, name, sort, term string) {
@@ -212,6 +261,13 @@ func (fc *fnCtx) heapSet(st *State, name, sort, term string) {
 		t.heapSorts[name] = sort
 	}
 	st.heap[name] = fc.defs.Define("H."+name, sort, term)
+}
+
+func (fc *fnCtx) entryBase() string {
+	if fc.top.entry != nil {
+		return fc.top.entry.heapBase
+	}
+	return "0"
 }
 
 func (fc *fnCtx) havocAllHeap(st *State, why string) {
@@ -325,7 +381,7 @@ func (fc *fnCtx) slIdx(s, i string) string {
 	if off == "0" {
 		return i
 	}
-	return "(+ " + off + " " + i + ")"
+	return "(sl.ix " + s + " " + i + ")"
 }
 
 // updPath returns v with the sub-object at path replaced by nv.
@@ -390,6 +446,49 @@ func (fc *fnCtx) writeLVal(st *State, l *LVal, nv string) {
 			fc.heapSet(st, hn, hs, fmt.Sprintf("(store %s %s %s)", h, l.Ptr, fc.updPath(cur, l.Path, nv)))
 		}
 	}
+}
+
+func allocLess(a, b *ssa.Alloc) bool {
+	if a.Parent() != b.Parent() {
+		return a.Parent().String() < b.Parent().String()
+	}
+	ba, bb := a.Block(), b.Block()
+	if ba != bb {
+		if ba == nil || bb == nil {
+			return ba == nil
+		}
+		return ba.Index < bb.Index
+	}
+	// same block: order of appearance
+	if ba != nil {
+		for _, ins := range ba.Instrs {
+			if ins == ssa.Instruction(a) {
+				return true
+			}
+			if ins == ssa.Instruction(b) {
+				return false
+			}
+		}
+	}
+	return a.Name() < b.Name()
+}
+
+func sortedAllocs(m map[*ssa.Alloc]bool) []*ssa.Alloc {
+	out := make([]*ssa.Alloc, 0, len(m))
+	for a := range m {
+		out = append(out, a)
+	}
+	sort.Slice(out, func(i, j int) bool { return allocLess(out[i], out[j]) })
+	return out
+}
+
+func sortedGlobals(m map[*ssa.Global]bool) []*ssa.Global {
+	out := make([]*ssa.Global, 0, len(m))
+	for g := range m {
+		out = append(out, g)
+	}
+	sort.Slice(out, func(i, j int) bool { return out[i].String() < out[j].String() })
+	return out
 }
 
 func cellName(a *ssa.Alloc) string {
@@ -587,6 +686,9 @@ func (fc *fnCtx) freshVal(st *State, prefix string, t types.Type) Val {
 	if isPointer(t) {
 		fc.assume(st, fmt.Sprintf("(< %s %s)", n, st.alloc))
 	}
+	if _, ok := t.Underlying().(*types.Slice); ok {
+		fc.assume(st, fmt.Sprintf("(< (sl.base %s) %s)", n, st.alloc))
+	}
 	return Val{T: n, Ty: t}
 }
 
@@ -760,7 +862,7 @@ func (fc *fnCtx) mergeStates(edges []inEdge, label string) *State {
 			cellKeys[k] = true
 		}
 	}
-	for k := range cellKeys {
+	for _, k := range sortedAllocs(cellKeys) {
 		vals := make([]string, len(live))
 		et := k.Type().(*types.Pointer).Elem()
 		for i, e := range live {
@@ -790,6 +892,15 @@ func (fc *fnCtx) mergeStates(edges []inEdge, label string) *State {
 			heapKeys[k] = true
 		}
 		out.heapBase = fc.defs.fresh("hm")
+		allFramed := true
+		for _, e := range live {
+			if e.st.heapBase != fc.top.entryBase() && !fc.top.framedBases[e.st.heapBase] {
+				allFramed = false
+			}
+		}
+		if allFramed {
+			fc.top.framedBases[out.heapBase] = true
+		}
 	}
 	for _, k := range sortedKeys(heapKeys) {
 		srt := fc.top.heapSorts[k]
@@ -806,7 +917,7 @@ func (fc *fnCtx) mergeStates(edges []inEdge, label string) *State {
 			globKeys[k] = true
 		}
 	}
-	for k := range globKeys {
+	for _, k := range sortedGlobals(globKeys) {
 		vals := make([]string, len(live))
 		for i, e := range live {
 			vals[i] = fc.globGet(e.st, k)
@@ -987,23 +1098,43 @@ func (fc *fnCtx) enterLoop(li *loopInfo, st *State) {
 			fc.oblige(st, "loop-entry", fc.loopClauseName(li, "entry", i, inv), g, "loop invariant holds on entry: "+inv.Text, token.NoPos, true)
 		}
 	}
+	fc.top.curLoop = li
+	defer func() { fc.top.curLoop = nil }()
+	// the function's frame holds on entry to the loop (needed by the framed havoc below)
+	if fc.contract != nil && fc.contract.HasMod {
+		fc.loopFrameObligations(li, st, "entry")
+	}
 	// 2. havoc
 	cells, _, all, globs := fc.loopModified(li)
-	for a := range cells {
+	for _, a := range sortedAllocs(cells) {
 		et := a.Type().(*types.Pointer).Elem()
 		n := fc.defs.Declare(cellName(a)+".l", fc.S().SortOf(et))
 		st.cells[a] = n
 		fc.assume(st, fc.S().RangeFact(et, n, 2))
 	}
-	for g := range globs {
+	for _, g := range sortedGlobals(globs) {
 		et := g.Type().(*types.Pointer).Elem()
 		st.globs[g] = fc.defs.Declare("G."+g.Name()+".l", fc.S().SortOf(et))
 	}
 	if all {
 		old := st.alloc
+		wasFramed := st.heapBase == fc.entryBase() || fc.top.framedBases[st.heapBase]
 		fc.havocAllHeap(st, "loop")
+		if wasFramed && fc.contract != nil && fc.contract.HasMod {
+			fc.top.framedBases[st.heapBase] = true
+		}
 		st.alloc = fc.defs.Declare("alloc.l", "Int")
 		fc.assume(st, fmt.Sprintf("(>= %s %s)", st.alloc, old))
+	}
+	// range loops: the hidden index starts at -1 and is only incremented (go/ssa lowering)
+	if li.header.Comment == "rangeindex.loop" && len(li.header.Instrs) > 0 {
+		if ld, ok := li.header.Instrs[0].(*ssa.UnOp); ok {
+			if a, ok := ld.X.(*ssa.Alloc); ok && a.Comment == "rangeindex" {
+				if v := st.cells[a]; v != "" {
+					fc.assume(st, "(>= "+v+" (- 1))")
+				}
+			}
+		}
 	}
 	// 3. assume invariant
 	if li.spec != nil {
@@ -1037,8 +1168,41 @@ func (fc *fnCtx) loopClauseName(li *loopInfo, what string, i int, c Clause) stri
 	return fmt.Sprintf("loop%d-%s%d", li.ordinal, what, i+1)
 }
 
+// loopFrameObligations: at loop entry / back edge the function's frame holds for
+// every heap that differs from its value at the reference point.
+func (fc *fnCtx) loopFrameObligations(li *loopInfo, st *State, what string) {
+	t := fc.top
+	var ref *State
+	if what == "entry" {
+		ref = t.entry
+	} else {
+		ref = li.hdrState
+	}
+	if st.heapBase != fc.entryBase() && !t.framedBases[st.heapBase] {
+		fc.oblige(st, "frame", fmt.Sprintf("loop%d-%s-frame-havoc", li.ordinal, what), "false", "frame inside loop: code without a frame contract was called (whole heap havocked)", token.NoPos, true)
+		return
+	}
+	for _, h := range sortedKeys(t.heapSorts) {
+		srt := t.heapSorts[h]
+		cur := fc.heapGet(st, h, srt)
+		if cur == fc.heapGet(ref, h, srt) {
+			continue
+		}
+		g := fc.frameFact(h, srt, cur)
+		fc.oblige(st, "frame", fmt.Sprintf("loop%d-%s-frame-%s", li.ordinal, what, h), g, "frame holds at loop "+what+" for heap "+h, token.NoPos, true)
+	}
+}
+
 func (fc *fnCtx) closeLoop(li *loopInfo, st *State, from *ssa.BasicBlock) {
-	if fc.inline || fc.specMode || li.spec == nil {
+	if fc.inline || fc.specMode {
+		return
+	}
+	fc.top.curLoop = li
+	defer func() { fc.top.curLoop = nil }()
+	if fc.contract != nil && fc.contract.HasMod && li.hdrState != nil && fc.top.framedBases[li.hdrState.heapBase] {
+		fc.loopFrameObligations(li, st, "preserved")
+	}
+	if li.spec == nil {
 		return
 	}
 	suffix := ""
@@ -1379,6 +1543,22 @@ func (fc *fnCtx) binop(st *State, op token.Token, a, b Val, opT, resT types.Type
 				fc.oblige(st, "div", "", not(eq(b.T, "0")), "integer division by zero", pos, false)
 				fc.assume(st, not(eq(b.T, "0")))
 			}
+			if _, lit := smallConst(b.T); !lit && fc.defs.inline == 0 {
+				// truncated division characterised by multiplication (solvers do badly on div by a
+				// variable); the facts are definitional (guarded by b != 0), hence attached to the
+				// fresh symbols as axioms rather than to the path condition
+				q := fc.defs.Declare("quo", "Int")
+				r := fc.defs.Declare("rem", "Int")
+				absb := fmt.Sprintf("(ite (>= %s 0) %s (- %s))", b.T, b.T, b.T)
+				ax := fmt.Sprintf("(=> (not (= %s 0)) (and (= %s (+ (* %s %s) %s)) (=> (>= %s 0) (and (<= 0 %s) (< %s %s))) (=> (< %s 0) (and (< (- %s) %s) (<= %s 0))) (= %s (gdiv %s %s)) (= %s (gmod %s %s)) %s))",
+					b.T, a.T, b.T, q, r, a.T, r, r, absb, a.T, absb, r, r, q, a.T, b.T, r, a.T, b.T, divSignFacts(a.T, b.T, q))
+				fc.defs.Axiom(q, ax)
+				fc.defs.Axiom(r, ax)
+				if op == token.QUO {
+					return q, true
+				}
+				return r, true
+			}
 			if op == token.QUO {
 				return app("gdiv", a.T, b.T), true
 			}
@@ -1424,6 +1604,12 @@ func (fc *fnCtx) binop(st *State, op token.Token, a, b Val, opT, resT types.Type
 		}
 	}
 	return "", false
+}
+
+// divSignFacts: linear consequences of truncated division that solvers do not
+// derive from the multiplicative characterisation on their own.
+func divSignFacts(a, b, q string) string {
+	return fmt.Sprintf("(=> (and (>= %[1]s 0) (> %[2]s 0)) (and (>= %[3]s 0) (<= %[3]s %[1]s))) (=> (and (<= %[1]s 0) (> %[2]s 0)) (and (<= %[3]s 0) (>= %[3]s %[1]s))) (=> (and (>= %[1]s 0) (< %[2]s 0)) (and (<= %[3]s 0) (>= %[3]s (- %[1]s)))) (=> (and (<= %[1]s 0) (< %[2]s 0)) (and (>= %[3]s 0) (<= %[3]s (- %[1]s)))) (=> (and (> %[1]s 0) (>= %[2]s 2)) (< %[3]s %[1]s))", a, b, q)
 }
 
 func smallConst(t string) (int64, bool) {
@@ -1498,7 +1684,7 @@ func (fc *fnCtx) strEq(a, b string) string {
 				return s, true
 			}
 		}
-		if n == "emptystr" {
+		if n == "emptystr" || n == emptyStr {
 			return "", true
 		}
 		return "", false
